@@ -7,7 +7,7 @@ var tierRuns = map[string][2]int{
 	"C02": {3000, 70000},
 	"C03": {6000, 200000},
 	"C04": {288, 8000},
-	"C05": {48, 800},
+	"C05": {192, 4000},
 	"C06": {160, 4500},
 	"C07": {112, 3000},
 	"C08": {160, 6000},
